@@ -356,6 +356,62 @@ fn mixed_sequences(rep: &mut Report, rng: &mut Rng, n_seq: u64) {
     }
 }
 
+/// Structured `Full` blocks (one coefficient; two coefficients of equal magnitude at every pair of
+/// positions and sign combination) whose ideal output stays within -256..255, i.e. blocks that are the
+/// transform of legitimate sample data like the Annex A inputs: peak error at most 1.
+fn structured_full_blocks(rep: &mut Report, part: usize, parts: usize) {
+    let coords = || J::obj().set("property", "C10").set("kind", "structured");
+    let mut cases: Vec<[[i32; 8]; 8]> = vec![];
+    let mags = [1i32, 7, 40, 100, 255, 600];
+    let mut idx = 0usize;
+    for p1 in 0..64usize {
+        for p2 in p1..64usize {
+            idx += 1;
+            if idx % parts != part {
+                continue;
+            }
+            for m in mags {
+                for signs in 0..4 {
+                    let mut c = [[0i32; 8]; 8];
+                    c[p1 / 8][p1 % 8] = if signs & 1 == 0 { m } else { -m };
+                    if p2 != p1 {
+                        c[p2 / 8][p2 % 8] = if signs & 2 == 0 { m } else { -m };
+                    } else if signs >= 2 {
+                        continue;
+                    }
+                    cases.push(c);
+                }
+            }
+        }
+    }
+    for chunk in cases.chunks(512) {
+        let blocks: Vec<DecodedDctBlock> = chunk.iter().map(full_block).collect();
+        let got = match catch(|| real_residuals(&blocks)) {
+            Ok(g) => g,
+            Err(p) => {
+                rep.violation(format!("panic@{}", p.loc), format!("IDCT panicked on structured blocks: {}", p.msg), coords());
+                return;
+            }
+        };
+        for (i, c) in chunk.iter().enumerate() {
+            let r = reference(c);
+            if r.iter().flatten().any(|v| *v <= -255 || *v >= 255) {
+                rep.count("structured_blocks_out_of_sample_range_skipped");
+                continue;
+            }
+            rep.evaluations += 1;
+            let peak = (0..64).map(|k| (got[i][k / 8][k % 8] - r[k / 8][k % 8]).abs()).max().unwrap();
+            if peak > 1 {
+                let nz: Vec<(usize, usize, i32)> = (0..64).filter(|k| c[k / 8][k % 8] != 0).map(|k| (k / 8, k % 8, c[k / 8][k % 8])).collect();
+                rep.violation("structured-full-block/peak", format!("full block with coefficients (v,u,value) {:?}: peak error {} against the double-precision reference", nz, peak), coords());
+                return;
+            }
+            rep.count("structured_full_blocks");
+            rep.distinct_enumerated += 1;
+        }
+    }
+}
+
 pub fn run(ctx: &Ctx) -> (Report, String) {
     let seeds: Vec<i64> = if ctx.tier == Tier::Thorough { (1..=50).collect() } else { vec![1, 2, 3, 4, 5, 6] };
     let seeds: Vec<i64> = if ctx.scale_pct < 100 { seeds.into_iter().take(1).collect() } else { seeds };
@@ -378,6 +434,7 @@ pub fn run(ctx: &Ctx) -> (Report, String) {
                 let mut rng = Rng::new(ctx.seed ^ 0xC10, i as u64);
                 shape_blocks(rep, &mut rng, n_rand / 8);
                 mixed_sequences(rep, &mut rng, ctx.n(200, 4000));
+                structured_full_blocks(rep, i - jobs.len(), 8);
             }
         });
         rep
@@ -390,6 +447,7 @@ pub fn run(ctx: &Ctx) -> (Report, String) {
         rep.require("shape_blocks:Vert", n_rand / 2);
         rep.require("zero_blocks_ok", 15);
         rep.require("mixed_sequence_blocks", 100_000);
+        rep.require("structured_full_blocks", 30_000);
     }
     (rep, rule())
 }
